@@ -30,8 +30,8 @@ use serde_json::{json, Value};
 use std::collections::{BTreeMap, BTreeSet};
 use std::str::FromStr;
 use temporal_rs::options::ArithmeticOverflow;
-use temporal_rs::partial::PartialDate;
-use temporal_rs::{Calendar, MonthCode, PlainDate, TinyAsciiStr};
+use temporal_rs::partial::{PartialDate, PartialDateTime, PartialTime};
+use temporal_rs::{Calendar, MonthCode, PlainDate, PlainTime, TinyAsciiStr};
 
 // ------------------------------------------------------------------------------------------------
 // calendars
@@ -566,7 +566,7 @@ fn part_with(k: &Kind, n: i64, p: &PlainDate, f: &F) -> Outcome {
         if name == "monthCode" && code.is_none() {
             continue;
         }
-        match guard(|| p.with(pd, None)) {
+        match guard(|| p.with(pd.clone(), None)) {
             Err(pn) => return o.fail(panic_sig(id, n, &pn), "no panic", pn),
             Ok(Ok(q)) => {
                 judged += 1;
@@ -576,6 +576,20 @@ fn part_with(k: &Kind, n: i64, p: &PlainDate, f: &F) -> Outcome {
             }
             // `with` refuses the record in calendars where the fields cannot be completed (era calendars: the era of
             // the receiver is not carried over; an existing finding of the rebuild part): not judged here
+            Ok(Err(_)) => {}
+        }
+        // the sibling entry point: PlainDateTime::with resolves the date fields in the receiver's calendar too
+        let time = PlainTime::try_new(13, 7, 9, 1, 2, 3).expect("time");
+        let via_dt = guard(|| p.to_plain_date_time(Some(time)).and_then(|dt| dt.with(PartialDateTime { date: pd, time: PartialTime::default() }, None)));
+        match via_dt {
+            Err(pn) => return o.fail(panic_sig(id, n, &pn), "no panic", pn),
+            Ok(Ok(q)) => {
+                judged += 1;
+                let got = Ymd::new(q.iso_year() as i64, q.iso_month(), q.iso_day());
+                if got.n() != n || q.calendar().identifier() != id || (q.hour(), q.minute(), q.second(), q.nanosecond()) != (13, 7, 9, 3) {
+                    return o.fail(format!("C16/with/{id}/{name}/datetime/own-field-changes-the-value"), format!("{:?} 13:07:09.001002003 in {id}", Ymd::from_n(n)), format!("{:?} {}:{}:{} in {} from {f:?}", got, q.hour(), q.minute(), q.second(), q.calendar().identifier()));
+                }
+            }
             Ok(Err(_)) => {}
         }
     }
@@ -615,6 +629,20 @@ fn part_year_month(k: &Kind, cal: &Calendar, n: i64, f: &F) -> Outcome {
                                 return o.fail("C16/yearmonth/ethioaa/by-year/year-read-as-era-year", format!("year {} month code {}", f.y, f.code), format!("year {y} month code {code}"));
                             }
                             return o.fail(format!("C16/yearmonth/{id}/{route}/describes-another-month"), format!("year {} month code {}", f.y, f.code), format!("year {y} month code {code} (ISO {}-{:02})", ym.iso_year(), ym.iso_month()));
+                        }
+                        // the year-level and month-level fields of the year-month are those of every date in that month
+                        match guard(|| (ym.month(), ym.days_in_month(), ym.days_in_year(), ym.months_in_year(), ym.in_leap_year(), ym.era().map(|e| e.as_str().to_string()), ym.era_year())) {
+                            Ok(got) => {
+                                let want = (f.m, f.dim, f.diy, f.miy, f.leap, f.era.clone(), f.ey);
+                                if got != want {
+                                    return o.fail(
+                                        format!("C16/yearmonth/{id}/{route}/fields-differ-from-the-dates-of-the-month"),
+                                        format!("(month, days in month, days in year, months in year, leap, era, era year) = {want:?}"),
+                                        format!("{got:?} (year {y} {code})"),
+                                    );
+                                }
+                            }
+                            Err(pn) => return o.fail(panic_sig(id, n, &pn), "no panic", pn),
                         }
                     }
                     Err(pn) => return o.fail(panic_sig(id, n, &pn), "no panic", pn),
